@@ -18,6 +18,59 @@ LIMITS = ("_config.max_memory_size", "MAX_MEMORY_SIZE")
 _KIND = {"_extract_from_zip_optimized": "zip-size", "_extract_from_tar_optimized": "tar-size"}
 
 
+def _archive_objects(f):
+    """Local names bound (with-as / assignment) to an opened archive: ZipFile(...), tarfile.open(...), TarFile(...), SevenZipFile(...)."""
+    out = set()
+    opener = lambda c: isinstance(c, ast.Call) and ast.unparse(c.func).split(".")[-1] in ("ZipFile", "TarFile", "SevenZipFile") or \
+        isinstance(c, ast.Call) and ast.unparse(c.func) in ("tarfile.open", "TarFile.open", "tarfile.TarFile.open")
+    for n in ast.walk(f):
+        if isinstance(n, (ast.With, ast.AsyncWith)):
+            for it in n.items:
+                if opener(it.context_expr) and isinstance(it.optional_vars, ast.Name):
+                    out.add(it.optional_vars.id)
+        elif isinstance(n, ast.Assign) and opener(n.value):
+            out |= {t.id for t in n.targets if isinstance(t, ast.Name)}
+    return out
+
+
+def member_reads(arch, f, readers):
+    """-> (read sites of `f`, {id(site): the expression naming the member that is read}).  A read site is a call `A.<reader>(V, ..)`
+    on the archive object, or a call `h(.., V, ..)` of a local helper whose body does `X.<reader>(P, ..)` on its parameter P."""
+    reads = [n for n in ast.walk(f) if isinstance(n, ast.Call) and isinstance(n.func, ast.Attribute) and n.func.attr in readers]
+    arch_objs = _archive_objects(f)
+    if arch_objs:      # `fh.read()` on the stream that `zf.open(V)` returned is not a member read: keep the calls on the archive object
+        reads = [n for n in reads if isinstance(n.func.value, ast.Name) and n.func.value.id in arch_objs]
+    arg_of = {id(n): n.args[0] for n in reads if n.args}
+    for c in ast.walk(f):
+        h = arch.functions.get(c.func.id) if isinstance(c, ast.Call) and isinstance(c.func, ast.Name) else None
+        if h is None or h is f:
+            continue
+        params = [a.arg for a in h.args.posonlyargs + h.args.args]
+        for r in ast.walk(h):
+            if isinstance(r, ast.Call) and isinstance(r.func, ast.Attribute) and r.func.attr in readers and r.args and isinstance(r.args[0], ast.Name) \
+                    and r.args[0].id in params and isinstance(r.func.value, ast.Name) and r.func.value.id in params:
+                k = params.index(r.args[0].id)
+                actual = c.args[k] if k < len(c.args) else next((kw.value for kw in c.keywords if kw.arg == r.args[0].id), None)
+                if actual is not None:
+                    reads.append(c)
+                    arg_of[id(c)] = actual
+                    break
+    return reads, arg_of
+
+
+def _seen_through(arch, f, test, branch, size_attrs):
+    """Names V for which `test` evaluating to `branch` implies `V.<size attr> <= limit`: the guard up to negation / De Morgan /
+    flipped comparison / single-assignment local alias / a local predicate helper (`f(.., V.size)` whose body decides
+    `size > limit`), read by contracts/guardlib.py."""
+    from contracts import guardlib
+    out = []
+    for x in guardlib.upper_bounded(guardlib.implied(test, branch, arch, f), LIMITS):
+        e = ast.parse(x, mode="eval").body
+        if isinstance(e, ast.Attribute) and e.attr in size_attrs and isinstance(e.value, ast.Name):
+            out.append(e.value.id)
+    return out
+
+
 def member_size_guard(prop, repo, fn_name, readers, size_attrs, label="member-size-check-dominates-read"):
     """`readers` / `size_attrs` are kept for backwards compatibility (the reader methods and size attributes are fixed per archive kind)."""
     from contracts import C09_flow
